@@ -47,6 +47,10 @@ func Validate(namespaces []*Namespace) (*Environment, error) {
 
 	for _, pass := range passes {
 		env = pass(env, &errorSink)
+		if env.hasReferenceCycles {
+			// the remaining passes follow type references and would not terminate
+			break
+		}
 	}
 
 	return env, errorSink.AsError()
